@@ -157,7 +157,7 @@ def enc_pub(e: Any) -> str:
         return type(e).__name__
 
 
-def serde_corr(env: Env, out: Outcome, n: int) -> None:
+def serde_corr(env: Env, out: Outcome, n: int, stability_sig: str | None = None) -> None:
     """BrokerState.to_serialized -> JSON text -> from_serialized on generated states, twice (stability),
     against the model's `serde` op."""
     from workflows.context.context_types import SerializedContext
@@ -184,11 +184,21 @@ def serde_corr(env: Env, out: Outcome, n: int) -> None:
             ops += ["cfg " + enc.cfg(st), "state " + enc.state(st)]
             exp += ["ok", enc.state(st)]
             cur = st
+            rts = []
             for _rt in range(2):
                 text = cur.to_serialized(ser).model_dump_json()
                 cur = BrokerState.from_serialized(SerializedContext.model_validate_json(text), None, ser)  # type: ignore[arg-type]
                 ops.append("serde")
                 exp.append(enc.state(cur))
+                rts.append(exp[-1])
+            if stability_sig is not None and rts[0] != rts[1]:
+                # the property's own clause, on the implementation alone: one round trip must be a fixed point
+                i = 0
+                while i < min(len(rts[0]), len(rts[1])) and rts[0][i] == rts[1][i]:
+                    i += 1
+                out.violations.append(Violation(stability_sig, "deserialize(serialize(x)) changes again under a second round trip: "
+                                                f"...{rts[0][max(0, i - 60): i + 60]}... vs ...{rts[1][max(0, i - 60): i + 60]}...",
+                                                {"state": ops[-3][:6000], "cfg": ops[-4][:2000]}))
             out.evaluations += 1
             nip = sum(len(w.in_progress) for w in st.workers.values())
             nw_ = sum(len(w.collected_waiters) for w in st.workers.values())
